@@ -49,6 +49,22 @@ func genSkipStream(c *sim.Ctx, st *sim.Stream, maxDepth int) (items []skipItem, 
 			stream = append(stream, enc...)
 			continue
 		}
+		if !bigValuesProfile && st.Chance(1, 400) {
+			// more than a MiB of fixed-size entries, entry widths that do not divide 2^20
+			kt := []byte{ref.TI32, ref.TI64, ref.TI16, ref.TBool, ref.TDouble}[st.Choose(5)]
+			vt := []byte{ref.TI16, ref.TBool, ref.TByte, ref.TI32, ref.TI64}[st.Choose(5)]
+			n := 100000 + st.Choose(150000)
+			v = &ref.Value{T: ref.TMap, KT: kt, VT: vt, Elems: make([]*ref.Value, 0, 2*n)}
+			kv, vv := ref.GenScalar(st, kt, o), ref.GenScalar(st, vt, o)
+			for j := 0; j < n; j++ {
+				v.Elems = append(v.Elems, kv, vv)
+			}
+			enc := ref.Encode(v)
+			c.Count("probe.fixed_container_over_a_MiB")
+			items = append(items, skipItem{v: v, enc: enc, off: len(stream), note: "hugefixed"})
+			stream = append(stream, enc...)
+			continue
+		}
 		switch st.Pick(6, 2, 2, 1, 1) {
 		case 4:
 			v = ref.GenWide(st, []int{63, 64, 65, 66, 70, 130, 200}[st.Choose(7)])
